@@ -159,8 +159,38 @@ def run_group_inner(g):
         same = snapshot(arr) == before
         if isinstance(r, str):
             return dict(array=r, scalar=scal, input_unchanged=same)
-        return dict(array=dict(shape=list(np.shape(r)), dtype=str(getattr(r, "dtype", type(r).__name__)),
-                               vals=[f2b(v) for v in np.asarray(r).reshape(-1)]), scalar=scal, input_unchanged=same)
+        res = dict(array=dict(shape=list(np.shape(r)), dtype=str(getattr(r, "dtype", type(r).__name__)),
+                              vals=[f2b(v) for v in np.asarray(r).reshape(-1)]), scalar=scal, input_unchanged=same)
+        # the result must be a float array of its own: not the caller's integer words under another name
+        res["is_float"] = bool(np.issubdtype(np.asarray(r).dtype, np.floating))
+        res["shares_memory"] = bool(isinstance(r, np.ndarray) and isinstance(arr, np.ndarray) and np.shares_memory(r, arr))
+        if isinstance(r, np.ndarray) and r.size and r.flags.writeable:
+            try:
+                with np.errstate(all="ignore"):
+                    r[...] = r + 0.75            # a float edit of the result ...
+            except Exception:
+                pass
+        res["input_unchanged_after_edit"] = snapshot(arr) == before     # ... must leave the input words alone
+        return res
+    if kind == "ld":
+        # np.longdouble inputs (x87 80-bit on this platform): values given exactly as m * 2**e
+        L = np.longdouble
+        if np.finfo(L).nmant != 63:
+            return dict(platform=False)
+
+        def mk(m, e):
+            a, b = divmod(abs(m), 1 << 32)
+            x = (L(a) * L(2) ** 32 + L(b)) * L(2) ** L(e)
+            return -x if m < 0 else x
+        xs = [mk(m, e) for m, e in g["me"]]
+        conv, err = construct(tc.NumpyFloatToFixConverter, "fail1", s, n, f)
+        sc, e2 = construct(tc.float_to_fp, None, s, n, f)
+        scal = [e2 if e2 else guarded(lambda: int(sc(x))) for x in xs]
+        old, e3 = construct(tc.float_to_fix, "fail0", s, n, f)
+        fixs = [e3 if e3 else guarded(lambda: int(old(x))) for x in xs]
+        arr = np.array(xs, dtype=L).reshape(g["shape"])
+        r = err if err else guarded(lambda: conv(arr))
+        return dict(platform=True, array=r if isinstance(r, str) else to_fix_result(r), scalar=scal, fix=fixs)
     raise ValueError(kind)
 
 
